@@ -121,4 +121,6 @@ def run(ctx):
     ctx.replay_vectors("MC_Codec", "MC_Codec.cfg", perform, "grid", classify, consts='CONSTANT Area = "tc"',
                        need_actions=("PickVector",))
     ctx.validate_events(events(ctx), "calls", classify, shard=2000)
+    from .. import repotests
+    repotests.codec_stage(ctx, "C02")       # the calls the repository's own tests make, judged by the specification
     ctx.exhaustive = False
